@@ -6,7 +6,8 @@ From Verif Require Import Base.Prelude Base.StrOrd Base.Graph Model.MapSpec Mode
   Model.PrepareSteps Model.Validate Model.ValidateSpec.
 From Verif Require Model.Pipe.
 From Verif Require Import Model.Mutate.
-From Verif Require Import Corr.Run_C12 Proofs.PrepareFacts Proofs.ValidateFacts Proofs.ValidateDecide Proofs.MutateFacts.
+From Verif Require Import Corr.Run_C12 Proofs.PrepareFacts Proofs.ValidateFacts Proofs.ValidateDecide Proofs.MutateFacts
+  Proofs.ValidateClasses.
 
 (* ---------- construction ---------- *)
 (* what construction accepts is free of every construction-time fault class of the property *)
@@ -24,21 +25,54 @@ Proof. exact validate_construct_complete_per_fault. Qed.
 Print Assumptions C12_validate_construct_complete_per_fault.
 
 (* ---------- map ---------- *)
-(* what prepare_run accepts is free of every map-time fault class (zipped dimensions: for MapSpecs that do not
-   repeat an array name or an index inside one array, `plain_specs`) *)
+(* what prepare_run accepts is free of every map-time fault class *)
 Theorem C12_validate_map_sound : forall q,
   validate_map q = Ok tt ->
   ~ F_executor q /\ ~ F_missing_input q /\ ~ F_surplus_input q /\ ~ F_axes (q_funcs q) /\ ~ F_rank q
-  /\ (plain_specs (q_funcs q) -> ~ F_zip q) /\ ~ F_storage q.
+  /\ ~ F_zip q /\ ~ F_storage q.
 Proof. exact validate_map_sound. Qed.
 Print Assumptions C12_validate_map_sound.
 
 Theorem C12_validate_map_complete_per_fault : forall q,
   (F_executor q \/ F_missing_input q \/ F_surplus_input q \/ F_axes (q_funcs q) \/ F_rank q \/ F_storage q
-   \/ (plain_specs (q_funcs q) /\ F_zip q)) ->
+   \/ F_zip q) ->
   exists e, validate_map q = Err e.
 Proof. exact validate_map_complete_per_fault. Qed.
 Print Assumptions C12_validate_map_complete_per_fault.
+
+(* ---------- exception classes ---------- *)
+(* construction: ValueError for every fault class; a cycle - checked last in Pipeline.add - is
+   networkx.NetworkXUnfeasible (OtherError); the only other class is the IndexError of a MapSpec without outputs *)
+Theorem C12_construct_error_classes : forall fs e,
+  validate_construct fs = Err e ->
+  e = ValueError \/ e = OtherError \/ (e = IndexError /\ exists f m, In f fs /\ rspec f = Some m /\ outs m = []).
+Proof. exact validate_construct_class. Qed.
+Print Assumptions C12_construct_error_classes.
+
+Theorem C12_add_error_classes : forall fs f e,
+  add_checks fs f = Err e ->
+  e = ValueError
+  \/ (e = OtherError /\ unique_new fs f = Ok tt /\ consistent_defaults (fs ++ [f]) = Ok tt
+      /\ mapspec_outputs_match (fs ++ [f]) = Ok tt /\ validate_consistent_axes (specs_of (fs ++ [f])) = Ok tt
+      /\ acyclicb (fgraph (fs ++ [f])) = false).
+Proof. exact add_checks_class. Qed.
+Print Assumptions C12_add_error_classes.
+
+Theorem C12_func_error_classes : forall f e,
+  validate_func f = Err e -> e = ValueError \/ (e = IndexError /\ exists m, rspec f = Some m /\ outs m = []).
+Proof. exact validate_func_class. Qed.
+Print Assumptions C12_func_error_classes.
+
+(* map: the fault classes checked before RunInfo.create raise ValueError, each when everything the code checks
+   before it has passed (executor first; inputs after the graph checks; axes; storage names) *)
+Theorem C12_map_head_error_classes : forall q,
+  (F_executor q -> validate_map q = Err ValueError)
+  /\ (c_exec q = Ok tt -> graph_checks (q_funcs q) = Ok tt -> (F_missing_input q \/ F_surplus_input q) ->
+      validate_map q = Err ValueError)
+  /\ (c_exec q = Ok tt -> c_inputs q = Ok tt -> F_axes (q_funcs q) -> validate_map q = Err ValueError)
+  /\ (c_exec q = Ok tt -> c_inputs q = Ok tt -> c_axes q = Ok tt -> F_storage q -> validate_map q = Err ValueError).
+Proof. exact validate_map_head_classes. Qed.
+Print Assumptions C12_map_head_error_classes.
 
 (* ---------- nothing runs, nothing is written ---------- *)
 (* for EVERY step list: if every effect is preceded by all checks, a rejected request has performed no effect *)
@@ -82,7 +116,7 @@ Proof. exact model_meets_spec_construct. Qed.
 Print Assumptions C12_model_meets_spec_construct.
 
 Theorem C12_model_meets_spec_map : forall q,
-  plain_specs (q_funcs q) -> spec_ok (CMap q false) (run (CMap q false)) = true.
+  spec_ok (CMap q false) (run (CMap q false)) = true.
 Proof. exact model_meets_spec_map. Qed.
 Print Assumptions C12_model_meets_spec_map.
 
@@ -198,12 +232,8 @@ Module Ex.
 End Ex.
 
 Example C12_example_accepted :
-  validate_construct [Ex.f; Ex.g] = Ok tt /\ validate_map Ex.q = Ok tt /\ plain_specs [Ex.f; Ex.g].
-Proof.
-  split; [vm_compute; reflexivity|]. split; [vm_compute; reflexivity|].
-  intros f m [<-|[<-|[]]] Hs; injection Hs as <-; (split; [vm_compute; reflexivity|]);
-    (split; [vm_compute; reflexivity|]); split; repeat constructor; cbn; intuition discriminate.
-Qed.
+  validate_construct [Ex.f; Ex.g] = Ok tt /\ validate_map Ex.q = Ok tt.
+Proof. split; vm_compute; reflexivity. Qed.
 
 (* instances of the hypotheses of the model_meets_spec theorems, and a rejected request of the map model *)
 Example C12_example_hypotheses :
